@@ -1,8 +1,141 @@
-From Coq Require Import List String Bool Arith.
-From TV Require Import model.Graphs model.OutputOrder proofs.OutputOrderFacts.
+(** C08 - kernel generation is total: code, or one of the documented refusals.
+    Statements only; proofs are in proofs/{Graphs*,OutputOrder*,Names*}.v, models in
+    model/{Graphs,OutputOrder,Names}.v.
+
+    "never hangs" for the enumeration is the fact that model/Graphs.v is accepted by Coq:
+    structural recursion on the pair of graphs (merge_add / merge_multiply / merge_assignment),
+    on the length of a group (permutations), and fuel [S height] for simplify_add, which
+    [C08_simplify_add_fuel_sufficient] shows is never exhausted. *)
+From Coq Require Import List String Bool Arith Permutation.
+From TV Require Import model.Graphs model.OutputOrder model.Names.
+From TV Require Import proofs.GraphsOrders proofs.GraphsSimplify proofs.OutputOrderFacts
+  proofs.OutputOrderWalk proofs.NamesInj.
 Import ListNotations.
+Open Scope string_scope.
+
+(** *** 1. outcomes of generate_code / generate_module_tensora
+
+    FULL statement (what the property asks).  It is refuted on today's tree
+    (findings/K_C08_1.v: C08_generate_total_refuted). *)
+Definition C08_generate_outcomes_typed_full : Prop :=
+  forall a fs ks, wf_problem a fs = true ->
+    generate a fs ks = Code \/ generate a fs ks = Diagonal \/ generate a fs ks = NoKernel.
+
+(** Proved: the only internal error that can escape is the NotImplementedError of
+    AppendOutput.next_output.  In particular the RuntimeError of AppendOutput.write_assignment
+    ([InternalWriteAssignment]) and every failing lookup ([IllFormed]) are unreachable.
+    Gap to the full statement: the disjunct [InternalAppendNextOutput]; it is characterised exactly
+    by theorem 2 and removed by the repair of theorem 3. *)
+Theorem C08_generate_outcomes_typed_partial : forall a fs ks,
+  wf_problem a fs = true ->
+  generate a fs ks = Code \/ generate a fs ks = Diagonal \/ generate a fs ks = NoKernel
+  \/ generate a fs ks = InternalAppendNextOutput.
+Proof. exact generate_outcomes_typed_partial. Qed.
+Print Assumptions C08_generate_outcomes_typed_partial.
+
+(** non-trivial instances of the hypothesis, one per outcome class *)
+Definition ex_matvec := mkDA (mkDT 0 "a" ["i"]) (DContract "j" (DMultiply (DTensor (mkDT 1 "B" ["i"; "j"])) (DTensor (mkDT 2 "c" ["j"])))).
+Definition ex_matvec_fs := [("a", mkFormat [Compressed] [0]); ("B", mkFormat [Dense; Compressed] [0; 1]); ("c", mkFormat [Dense] [0])].
+Example C08_ex_wf_code : wf_problem ex_matvec ex_matvec_fs = true /\ generate ex_matvec ex_matvec_fs [Assemble; Compute; Evaluate] = Code.
+Proof. vm_compute. split; reflexivity. Qed.
+Definition ex_csc_fs := [("a", mkFormat [Compressed] [0]); ("B", mkFormat [Dense; Compressed] [1; 0]); ("c", mkFormat [Dense] [0])].
+Example C08_ex_wf_nokernel : wf_problem ex_matvec ex_csc_fs = true /\ generate ex_matvec ex_csc_fs [Evaluate] = NoKernel.
+Proof. vm_compute. split; reflexivity. Qed.
+Definition ex_diag := mkDA (mkDT 0 "a" ["i"]) (DTensor (mkDT 1 "B" ["i"; "i"])).
+Definition ex_diag_fs := [("a", mkFormat [Dense] [0]); ("B", mkFormat [Dense; Compressed] [0; 1])].
+Example C08_ex_wf_diagonal : wf_problem ex_diag ex_diag_fs = true /\ generate ex_diag ex_diag_fs [Compute] = Diagonal.
+Proof. vm_compute. split; reflexivity. Qed.
+
+(** *** 2. exactly when the internal error occurs: the first yielded graph visits, while all output
+    layers so far were visited in storage order, a node that is not the next output layer (a
+    contraction node, a later output layer, or a SumNode) although a compressed output layer is
+    still to come ([bad_from] in model/OutputOrder.v), and at least one kernel type is requested. *)
+Theorem C08_internal_iff_first_graph_bad : forall a fs ks,
+  generate a fs ks = InternalAppendNextOutput <-> first_graph_bad a fs ks = true.
+Proof. exact internal_iff_first_graph_bad. Qed.
+Print Assumptions C08_internal_iff_first_graph_bad.
+
+(** *** 3. the candidate repair (use the first graph that is not bad) makes generation total *)
+Theorem C08_generate_filtered_total : forall a fs ks,
+  wf_problem a fs = true ->
+  generate_filtered a fs ks = Code \/ generate_filtered a fs ks = Diagonal
+  \/ generate_filtered a fs ks = NoKernel.
+Proof. exact generate_filtered_total. Qed.
+Print Assumptions C08_generate_filtered_total.
+
+(** the purely structural repair (skip iteration orders of the target that the output builder cannot
+    append; it ignores that a node whose body is never entered cannot raise) is total as well *)
+Theorem C08_generate_filtered_struct_total : forall a fs ks,
+  wf_problem a fs = true ->
+  generate_filtered_struct a fs ks = Code \/ generate_filtered_struct a fs ks = Diagonal
+  \/ generate_filtered_struct a fs ks = NoKernel.
+Proof. exact generate_filtered_struct_total. Qed.
+Print Assumptions C08_generate_filtered_struct_total.
+
+(** *** 4. RuntimeError of write_assignment: unreachable for every graph of the enumeration *)
+Theorem C08_write_assignment_unreachable : forall a fs gs modes g ks,
+  to_iteration_graphs a fs = ROk gs -> output_modes a fs = Some modes -> In g gs ->
+  generate_all modes g ks <> WFail FWriteAssignment.
+Proof. exact write_assignment_unreachable. Qed.
+Print Assumptions C08_write_assignment_unreachable.
+
+(** *** 5. callable kernels: the same, or the documented broadcast refusal *)
+Definition C08_tensor_method_outcomes_typed_full : Prop :=
+  forall a fs, wf_problem a fs = true ->
+    tensor_method a fs = Code \/ tensor_method a fs = Diagonal \/ tensor_method a fs = NoKernel
+    \/ tensor_method a fs = BroadcastTarget.
+
+Theorem C08_tensor_method_outcomes_typed_partial : forall a fs,
+  wf_problem a fs = true ->
+  (tensor_method a fs = Code \/ tensor_method a fs = Diagonal \/ tensor_method a fs = NoKernel
+   \/ tensor_method a fs = InternalAppendNextOutput)
+  \/ tensor_method a fs = BroadcastTarget.
+Proof. exact tensor_method_outcomes_typed_partial. Qed.
+Print Assumptions C08_tensor_method_outcomes_typed_partial.
+
+Definition ex_bcast := mkDA (mkDT 0 "A" ["i"; "j"]) (DTensor (mkDT 1 "b" ["i"])).
+Definition ex_bcast_fs := [("A", mkFormat [Dense; Compressed] [0; 1]); ("b", mkFormat [Compressed] [0])].
+Example C08_ex_wf_broadcast : wf_problem ex_bcast ex_bcast_fs = true
+  /\ tensor_method ex_bcast ex_bcast_fs = BroadcastTarget /\ generate ex_bcast ex_bcast_fs [Evaluate] = Code.
+Proof. vm_compute. repeat split; reflexivity. Qed.
+
+(** *** 6. termination of the enumeration *)
+Theorem C08_simplify_add_fuel_sufficient : forall name ts, simplify_add_opt name ts <> None.
+Proof. exact simplify_add_opt_total. Qed.
+Print Assumptions C08_simplify_add_fuel_sufficient.
+
+Theorem C08_legal_iteration_orders_are_permutations : forall f o,
+  In o (legal_iteration_orders f) -> Permutation (seq 0 (List.length (f_modes f))) o.
+Proof. exact legal_orders_perm. Qed.
+Print Assumptions C08_legal_iteration_orders_are_permutations.
+
+(** *** 7. generated variable names (iteration_graph/_names.py): for identifiers matching
+    [A-Za-z][A-Za-z0-9]* the eleven name functions are jointly injective, and no generated name
+    is itself a legal identifier (each contains '_'), so it differs from every tensor / index name.
+    The two names of outputs/_bucket.py are NOT covered: with them injectivity fails
+    (findings/K_C08_3.v). *)
+Theorem C08_names_injective : forall g1 g2,
+  identb (gname_ident g1) = true -> identb (gname_ident g2) = true ->
+  render g1 = render g2 -> g1 = g2.
+Proof. exact names_injective. Qed.
+Print Assumptions C08_names_injective.
+
+Example C08_ex_names : identb "B" = true /\ identb "pos" = true /\ identb "x0Y" = true
+  /\ identb "a_b" = false /\ identb "0a" = false /\ identb "" = false
+  /\ render (NPos "B" 10) = "B_10_pos" /\ render (NSparseEnd 3 "B" 1) = "p_3_B_1_end".
+Proof. vm_compute. repeat split; reflexivity. Qed.
+
+Theorem C08_names_not_identifiers : forall g x, identb x = true -> render g <> x.
+Proof. exact names_not_identifiers. Qed.
+Print Assumptions C08_names_not_identifiers.
+
+(** *** 8. the functions evaluated by the correspondence harness are the model's *)
 Theorem C08_harness_entry_points_are_the_model : forall a fs ks,
   generate_r a fs (to_iteration_graphs a fs) ks = generate a fs ks
-  /\ tensor_method_r a fs (to_iteration_graphs a fs) = tensor_method a fs.
-Proof. exact (fun a fs ks => conj (generate_r_spec a fs ks) (tensor_method_r_spec a fs)). Qed.
+  /\ tensor_method_r a fs (to_iteration_graphs a fs) = tensor_method a fs
+  /\ generate_r a fs (filter_good_r a fs (to_iteration_graphs a fs)) ks = generate_filtered a fs ks.
+Proof.
+  exact (fun a fs ks => conj (generate_r_spec a fs ks)
+                             (conj (tensor_method_r_spec a fs) (generate_filtered_r_spec a fs ks))).
+Qed.
 Print Assumptions C08_harness_entry_points_are_the_model.
